@@ -63,12 +63,24 @@ Bombs ==
    [ty |-> "S-ia5", syn |-> "DER", kind |-> "length-bomb", segs |-> <<Seg(1, <<22, 132, 127, 255, 255, 255, 65>>)>>],
    [ty |-> "B-unc", syn |-> "DER", kind |-> "length-bomb", segs |-> <<Seg(1, <<3, 132, 64, 0, 0, 0, 0>>)>>]}
 
+\* A VALID unaligned-PER encoding whose open type is reassembled from many fragments (X.691 11.9.3.8):
+\*    Q-extal ::= SEQUENCE { a INTEGER (0..127), ..., data OCTET STRING OPTIONAL },  { a 0, data m * 65536 zero octets }
+\* preamble: extension bit 1, a = 0000000, number of additions - 1 = 0 000000, presence bitmap 1  = 80 01: the open type
+\* starts on an octet boundary.  Inner encoding of data: m fragments C4 + 64K zeros, then the length 00: m * 65537 + 1
+\* octets.  The open type wraps them in m fragments C4 + 64K of those octets, and a last one of m + 1 octets (m < 127);
+\* the k-th outer fragment holds the inner octets 65536 k ..: k zeros, the inner C4 of fragment k, 65535 - k zeros.
+FragOpen(m) ==
+  <<Seg(1, <<128, 1>>)>>
+  \o ConcatAll([k \in 1..m |-> <<Seg(1, <<196>>), Seg(k - 1, <<0>>), Seg(1, <<196>>), Seg(65536 - k, <<0>>)>>])
+  \o <<Seg(1, <<m + 1>>), Seg(m + 1, <<0>>)>>
+FragBombs == {[ty |-> "Q-extal", syn |-> "UPER", kind |-> "fragmented-open-type", segs |-> FragOpen(m)] : m \in {1, 4, 6}}
+
 VARIABLES scen, l
 dvars == <<scen, l>>
 Scenarios ==
   UNION {{[ty |-> ty, syn |-> s, kind |-> "deep", depth |-> d, limit |-> lim, segs |-> Deep(s, ty, d)] : s \in DeepSyns(ty), d \in Depths, lim \in Limits} : ty \in DeepTypes}
   \cup {[ty |-> "O-unc", syn |-> "DER", kind |-> "deep-string", depth |-> d, limit |-> lim, segs |-> DeepString(d)] : d \in Depths, lim \in Limits}
-  \cup {[b EXCEPT !.kind = b.kind] @@ [depth |-> 0, limit |-> 0] : b \in Bombs}
+  \cup {[b EXCEPT !.kind = b.kind] @@ [depth |-> 0, limit |-> 0] : b \in Bombs \cup FragBombs}
 DInit == scen \in Scenarios /\ l = 0
 DNext == FALSE /\ UNCHANGED dvars
 \* for small depths the closed form is the reference encoding of the nested value
@@ -90,6 +102,7 @@ DFaults(scn, ev) ==
   \cup When(ev.consumed > ev.size, "consumed-exceeds-size")
   \cup When(ev.peak > HeapC + HeapK * (ev.size \div 1), "heap-not-proportional-to-input")
   \cup When(scn.kind \in {"length-bomb", "count-bomb"} /\ ev.rc = "OK", "bomb-accepted")
+  \cup When(scn.kind = "fragmented-open-type" /\ (ev.rc # "OK" \/ ev.consumed # ev.size), "valid-encoding-rejected")
 TInit == l = 1 /\ scen = [kind |-> ""]
 TStep == /\ l <= Len(Log)
          /\ LET f == DFaults(Scn[DEv.id], DEv) IN
